@@ -168,6 +168,39 @@ func TestC01FullBuffer(t *testing.T) {
 	}
 }
 
+// fullBufferNamed: a plugged burst of creations whose records (16-byte header
+// + name padded to 16 bytes) fill the 64 KiB read buffer exactly: 2048 records
+// per read, the last one ending at byte 65536. Two rounds with the first
+// record shifted by one name-less record, so that a boundary is also met in the
+// middle of a name field.
+func fullBufferNamed(t *testing.T, prop string) {
+	for round := 0; round < 2; round++ {
+		c := &engine.Case{Prop: prop, Buf: 0}
+		c.Setup = []engine.Step{{K: engine.KMkdir, P: "d0"}, {K: engine.KCreate, P: "d0/self"}}
+		c.Steps = []engine.Step{{K: engine.KAdd, P: engine.P([]string{"d0", "./d0/"}[round])}, {K: engine.KAdd, P: "d0/self"}, {K: engine.KPlug}}
+		if round == 1 {
+			c.Steps = append(c.Steps, engine.Step{K: engine.KChmod, P: "d0/self", N: 0o600}) // one 16-byte record first
+		}
+		for i := 0; i < 2048*2+100; i++ {
+			c.Steps = append(c.Steps, engine.Step{K: engine.KCreate, P: engine.P(fmt.Sprintf("d0/f%05d", i))})
+		}
+		c.Steps = append(c.Steps, engine.Step{K: engine.KSync}, engine.Step{K: engine.KList})
+		w := engine.Exec(c)
+		engine.RecordCase(prop, &engine.Case{Prop: prop, Buf: c.Buf, Steps: c.Steps[:8]}, w, true)
+		engine.StatsFor(prop).AddFeat("full-buffer-named-events", w.Delivered)
+		if rep := engine.Report(c, w, engine.Owned[prop]); rep != nil {
+			msg := strings.Join(rep, "\n")
+			if len(msg) > 3000 {
+				msg = msg[:3000]
+			}
+			t.Fatalf("property %s violated (replay %s)\nburst of 32-byte records filling the read buffer exactly\n%s", prop, engine.SaveReplay(prop, c), msg)
+		}
+	}
+}
+
+func TestC01FullBufferNamed(t *testing.T) { fullBufferNamed(t, "C01") }
+func TestC08FullBufferNamed(t *testing.T) { fullBufferNamed(t, "C08") }
+
 func TestC01Overflow(t *testing.T) { overflowTest(t, "C01") }
 
 // ring: more than ten moves out of watched territory leave unmatched rename
